@@ -82,6 +82,22 @@ package ecmascript
 //@   ensures[C09] canonical: len((*exe).Events.Emitted) == old(len((*exe).Events.Emitted)) + 1 && (*exe).Events.Emitted[len((*exe).Events.Emitted)-1] == lastret(core.Canonicalize, y)
 //@   ensures[C09] onecopy: ncalls(core.Canonicalize) == old(ncalls(core.Canonicalize)) + 1
 
+// The Extended environment functions cronNext and match run on behalf of the
+// script, inside goja's recover. They keep nothing: no package variable and no
+// object that existed before the call is written (so nothing is shared between
+// executions, machines or goroutines), and every object they hand to library
+// code that may write it was made in this very call.
+// (No `safety` clause: a run-time panic in them - a missing argument, say - is
+// caught by RunProgram's recover like any other failure of the script.)
+//@ func (*Interpreter).Exec$3 returns r
+//@   recovered
+//@   modifies[C10,C12] nothing
+//@   writes[C10,C12] nothing
+//@ func (*Interpreter).Exec$4 returns r
+//@   recovered
+//@   modifies[C10,C12] nothing
+//@   writes[C10,C12] nothing
+
 // The watcher goroutine of Exec: touches only the runtime.
 //@ func (*Interpreter).Exec$8
 //@   trusted
